@@ -19,7 +19,11 @@ type Analysis struct {
 	R  *Result
 
 	// API entry points, resolved by exported name
+	// (NME, NM, CM, MTS are the functions holding the bodies: a thin forwarding wrapper
+	// `func CheckMnemonic(m, lg) error { _, err := decode(m, lg); return err }` is followed,
+	// API keeps the exported functions themselves)
 	NME, NM, CM, IMV, MTS, Str *ssa.Function
+	API                        map[*ssa.Function][]*ssa.Function // body -> the exported function and the wrappers in between
 	Exported                   []*ssa.Function
 
 	Gate1, Gate2, Gate3 *GateInfo
@@ -149,6 +153,26 @@ func NewAnalysis(p *Program) *Analysis {
 			a.R.OK("ANCHOR", name, p.Pos(fn.Pos()), "", "resolved")
 		}
 	}
+	a.API = map[*ssa.Function][]*ssa.Function{}
+	for _, slot := range []**ssa.Function{&a.NME, &a.NM, &a.CM, &a.MTS} {
+		api := *slot
+		if api == nil {
+			continue
+		}
+		chain := []*ssa.Function{api}
+		cur := api
+		for i := 0; i < 4; i++ {
+			g := a.thinTarget(cur)
+			if g == nil {
+				break
+			}
+			a.R.OK("ANCHOR", api.Name()+"/forwards", p.Pos(cur.Pos()), "", "%s only forwards its arguments to %s and returns its results: the rules are applied to %s", fnKey(cur), fnKey(g), fnKey(g))
+			cur = g
+			chain = append(chain, g)
+		}
+		*slot = cur
+		a.API[cur] = chain
+	}
 	// every exported function and method of the root package
 	seen := map[*ssa.Function]bool{}
 	sc := p.Root.Pkg.Scope()
@@ -183,13 +207,94 @@ func NewAnalysis(p *Program) *Analysis {
 	return a
 }
 
+// thinTarget: fn consists of one call of a module function with fn's own parameters, in
+// order, as the arguments, and returns that call's results (all of them in order, or just
+// the last one) — nothing else.  Returns the callee, or nil.
+func (a *Analysis) thinTarget(fn *ssa.Function) *ssa.Function {
+	if fn == nil || len(fn.Blocks) != 1 || len(fn.FreeVars) != 0 {
+		return nil
+	}
+	var call *ssa.Call
+	var ret *ssa.Return
+	for _, in := range fn.Blocks[0].Instrs {
+		switch x := in.(type) {
+		case *ssa.DebugRef, *ssa.Extract:
+		case *ssa.Call:
+			if call != nil {
+				return nil
+			}
+			call = x
+		case *ssa.Return:
+			ret = x
+		default:
+			return nil
+		}
+	}
+	if call == nil || ret == nil {
+		return nil
+	}
+	g := call.Call.StaticCallee()
+	if g == nil || !a.isModuleFunc(g) || g.Parent() != nil || len(g.Blocks) == 0 || g == fn {
+		return nil
+	}
+	if len(call.Call.Args) != len(fn.Params) || len(g.Params) != len(fn.Params) {
+		return nil
+	}
+	for i, p := range fn.Params {
+		if call.Call.Args[i] != ssa.Value(p) {
+			return nil
+		}
+	}
+	nres := g.Signature.Results().Len()
+	resultOf := func(v ssa.Value) int {
+		if v == ssa.Value(call) && nres == 1 {
+			return 0
+		}
+		if ex, ok := v.(*ssa.Extract); ok && ex.Tuple == ssa.Value(call) {
+			return ex.Index
+		}
+		return -1
+	}
+	switch {
+	case len(ret.Results) == nres:
+		for i, v := range ret.Results {
+			if resultOf(v) != i {
+				return nil
+			}
+		}
+	case len(ret.Results) == 1:
+		if resultOf(ret.Results[0]) != nres-1 {
+			return nil
+		}
+	default:
+		return nil
+	}
+	return g
+}
+
+// isAnchor: fn is the body function `body` or one of the functions forwarding to it.
+func (a *Analysis) isAnchor(fn, body *ssa.Function) bool {
+	if fn == nil || body == nil {
+		return false
+	}
+	if fn == body {
+		return true
+	}
+	for _, f := range a.API[body] {
+		if f == fn {
+			return true
+		}
+	}
+	return false
+}
+
 // RunAll executes the rule catalogue (order matters: tables before the rules that use them).
 func (a *Analysis) RunAll() {
 	steps := []struct {
 		name string
 		f    func()
 	}{
-		{"T1", a.ruleT1}, {"T5", a.ruleT5}, {"E2", a.ruleE2}, {"G", a.ruleGates}, {"S1", a.ruleS1}, {"T3", a.ruleT3},
+		{"T1", a.ruleT1}, {"T5", a.ruleT5}, {"E2", a.ruleE2}, {"T3", a.ruleT3}, {"G", a.ruleGates}, {"S1", a.ruleS1},
 		{"T2", a.ruleT2T6}, {"T4", a.ruleT4}, {"F3", a.ruleF3}, {"E1", a.ruleE1}, {"F1", a.ruleF1}, {"F2", a.ruleF2}, {"F4", a.ruleF4},
 		{"S2", a.ruleS2}, {"S3", a.ruleS3}, {"L", a.ruleLayouts}, {"P", a.ruleP}, {"W", a.ruleW},
 	}
